@@ -18,7 +18,7 @@ RULE = (
     "keywords, direction letters, digits, fraction glyphs, P.M. fragments), alone and followed by a space - enumerated - and "
     "every concatenation of two atoms - sampled by Hypothesis - x 7 suffixes, at n = as many as fit and half of that; "
     "(repetition) k lines repeating the same or different Twp/Rge, k sections, k lots, k aliquots, k of the widest lot (1..999) and section (1..99) ranges; (soup) token soup and "
-    "damaged descriptions. Each text is parsed (PLSSDesc(text, parse_qq=True); Tract(text, parse_qq=True) for the tract-level anchors) under the default configuration and - "
+    "damaged descriptions; (long_session) an ordinary description parsed after 6 000 (thorough: 20 000) other parses in the same process under each mode. Each text is parsed (PLSSDesc(text, parse_qq=True); Tract(text, parse_qq=True) for the tract-level anchors) under the default configuration and - "
     "for the dead-space / connective atoms exhaustively, for the sampled families at random - under each optional parse mode (segment, sec_within, the colon modes, ocr_scrub, "
     "clean_qq, forced layouts; for tracts clean_qq, suppress_lot_divs, break_halves with a depth cap) in an isolated worker process and its CPU time "
     f"is compared with {timing.THRESHOLD_CPU_S} s (an ordinary parse of that size costs < 20 ms). Non-trivial: length >= 100. "
@@ -291,6 +291,35 @@ def render(c):
     return {"text": text_of(c), "entry": "Tract(text, parse_qq=True)" if c.get("kind") == "tract" else "PLSSDesc(text, parse_qq=True)", "config": c.get("config", "")}
 
 
+# long sessions: the cost of a parse does not creep up with the number of parses the process has done before ------------------
+
+SESSION_TEXT = ("T154N-R97W Sec 14: NE/4, Lots 1 - 3, less and except the wellbore\nSec 15: N/2SW/4\nTownship 155 North, Range 97 West, Section 1: ALL; "
+                "Sec 2: That part of the W/2 lying north of the river, Sec 3 - 5: Lots 2 (38.5), 3 and the S/2N/2")
+SESSION_WARM = {"plss": "TI5{k}N-R9{k}W Sec {k}: NE/4, Lot {k}", "tract": "N/2NE/4, Lots 1 - 3, NE"}
+
+
+def enum_sessions(tier):
+    n = 6000 if tier == "quick" else 20000
+    cases = [{"session": cfg, "n": n, "kind": "plss"} for cfg in ["ocr_scrub", "segment,sec_within", "sec_colon_cautious", "clean_qq", ""]]
+    cases += [{"session": cfg, "n": n, "kind": "tract"} for cfg in ["clean_qq", "break_halves,qq_depth_max.3"]]
+    return cases
+
+
+def oracle_session(c):
+    warm = {"n": c["n"], "text": SESSION_WARM[c["kind"]], "config": c["session"], "kind": c["kind"]}
+    status, cpu = timing.measure(SESSION_TEXT, kind="plss", config="", warmup=warm)
+    _last["status"] = status
+    _last["len"] = len(SESSION_TEXT)
+    if status == "slow":
+        return [Failure(f"slow:after_session:{c['kind']}:{c['session']}", f"after {c['n']} parses under {c['session']!r} in the same process, parsing {len(SESSION_TEXT)} ordinary characters took {cpu:.1f} s of CPU",
+                        cpu=cpu, session=c["session"])]
+    if status == "inconclusive":
+        note_excluded("inconclusive_wall_timeout_without_cpu")
+    if status == "error":
+        raise HarnessError(f"timing worker failed: {cpu}")
+    return []
+
+
 SUBS = [
     Sub("pump_atoms", oracle, enumerate=enum_pump, nontrivial=lambda c: _last.get("len", 0) >= 100, classes=classes, render=render, exhaustive=True,
         shards={"quick": 16, "thorough": 16}, budget_s={"quick": 170, "thorough": 1500}, max_shrink=0),
@@ -304,4 +333,6 @@ SUBS = [
         n={"quick": 600, "thorough": 5000}, shards={"quick": 4, "thorough": 16}, essential=tuple(f"rep={k}" for k in REP_KINDS), max_shrink=12),
     Sub("soup", oracle, strategy=lambda tier: SOUP_CASE, nontrivial=lambda c: _last.get("len", 0) >= 100, classes=classes, render=render,
         n={"quick": 800, "thorough": 8000}, shards={"quick": 4, "thorough": 16}, text_keys=("text",), max_shrink=20),
+    Sub("long_session", oracle_session, enumerate=enum_sessions, nontrivial=lambda c: True, classes=lambda c: [f"session={c['session']}", f"status={_last.get('status')}"],
+        render=lambda c: c, exhaustive=False, shards={"quick": 7, "thorough": 7}, budget_s={"quick": 170, "thorough": 1500}, max_shrink=0),
 ]
